@@ -15,6 +15,7 @@ def disciplined (_ : FnShape) (a : Access) : Bool :=
   | .call => a.mode != .N
   | .self => false
   | .spawn => false
+  | .send => false
 
 theorem discipline : allAccesses safeMap disciplined = true := by decide
 
